@@ -205,8 +205,10 @@ def eval_job(job_id, method="augment", B=2, k=2, S=2, n=3, source_filter=None):
     return ctx.result(E, w)
 
 
-def loader_job(job_id, N=3, batch_size=2, n=3, source_filter=None):
-    """EvalBase.__call__ / evaluate_policy: concatenation over loader batches (one partial) keeps dataset order"""
+def loader_job(job_id, N=3, batch_size=2, n=3, lengths=None, source_filter=None):
+    """EvalBase.__call__ / evaluate_policy: concatenation over loader batches (one partial) keeps dataset order.
+    lengths: solution length per loader batch (environments with variable-length solutions: later batches may be longer or shorter
+    than the first); the real __call__ must pad, never crop"""
     E = explore.EXP
     ctx = core.Ctx(job_id)
     w = world.make_world(source_filter=source_filter, inert=())
@@ -218,6 +220,9 @@ def loader_job(job_id, N=3, batch_size=2, n=3, source_filter=None):
     ctx.stubs.add("DataLoader contract stub (consecutive index batches, collate_fn); tqdm / timing inert; policy returns actions that are an uninterpreted function of the instance")
 
     def cexb(E_, neg):
+        if lengths:
+            return [{"kind": "script", "path": core.ROOT + "/vf/torch_side", "module": "eval_side", "func": "run_loader_lengths", "model_kind": "plain", "mode": "C15",
+                     "params": {"N": N, "batch_size": batch_size, "lengths": lengths}}]
         return []
 
     def harness():
@@ -247,6 +252,35 @@ def loader_job(job_id, N=3, batch_size=2, n=3, source_filter=None):
         dataset = ds.TensorDictDataset(TensorDict({"locs": locs}, batch_size=[N]))
         dl = datastub.DataLoader(dataset, batch_size=batch_size, shuffle=False, collate_fn=dataset.collate_fn)
         fn = ev.GreedyEval(env, progress=False)
+        if lengths:
+            # variable-length solutions: the evaluator's inner step is replaced by one that answers batch k with sequences of length
+            # lengths[k] (symbolic content per dataset item); what is under test is the real __call__ (concatenation + padding)
+            nb = -(-N // batch_size)
+            Ls = [lengths[k % len(lengths)] for k in range(nb)]
+            seqs = {i: [z3.Int(f"act_{i}_{t}") for t in range(Ls[i // batch_size])] for i in range(N)}
+            rews = {i: z3.Real(f"rew_{i}") for i in range(N)}
+            calls = [0]
+
+            def inner(policy_, td_, **kw):
+                k = calls[0]
+                calls[0] += 1
+                items = list(range(k * batch_size, min(N, (k + 1) * batch_size)))
+                return (T.Tensor(np.array([seqs[i] for i in items], dtype=object), T.int64), T.Tensor(np.array([rews[i] for i in items], dtype=object), T.float32))
+
+            fn._inner = inner
+            res = fn(policy, dl)
+            E.obligations = []
+            Lmax = max(Ls)
+            ok = tuple(res["actions"].shape) == (N, Lmax) and tuple(res["rewards"].shape) == (N,)
+            ctx.prove(E, f"[N={N} bs={batch_size} lengths={Ls}] one row per dataset item, as wide as the longest batch", ok, cexb)
+            if ok:
+                for i in range(N):
+                    Li = Ls[i // batch_size]
+                    ctx.prove(E, f"[N={N} bs={batch_size} lengths={Ls}] item {i}: its {Li} actions are kept in order, padded with zeros (never cropped), its reward travels with it",
+                              s_and(all_([s_eq(res["actions"].a[i, t], seqs[i][t]) for t in range(Li)] + [s_eq(res["actions"].a[i, t], 0) for t in range(Li, Lmax)]), s_eq(res["rewards"].a[i], rews[i])), cexb)
+            ctx.states += 1
+            ctx.transitions += 1
+            return
         res = fn(policy, dl)
         E.obligations = []
         ok = tuple(res["actions"].shape) == (N, n) and tuple(res["rewards"].shape) == (N,)
